@@ -5,7 +5,8 @@
     which shows the hypotheses are satisfiable). *)
 From stdpp Require Import gmap sets list.
 From Coq Require Import NArith.
-From SV Require Import SM.IndexModel SM.IndexProofs SM.IndexSearchProofs.
+From SV Require Import SM.IndexModel SM.IndexProofs SM.IndexSearchProofs SM.IndexShapes SM.IndexShapeProofs
+  SM.IndexUniqueProofs SM.IndexCopySetProofs.
 
 Section C07.
   Variable fold : str → str.
@@ -61,7 +62,98 @@ Section C07.
     intros ops m st Hm. apply (inv_worldspawn fold).
     exact (Forall_lookup_1 _ _ _ _ (c07_index_inv_worlds ops) Hm).
   Qed.
+
+  (** *** The code as written (shapes read off vmf.py by translate/c07_index_shapes.py on every run).
+      Entity.__setitem__: whatever spelling the caller uses, a lookup loop that passes the five shape obligations
+      (previous value fetched with the *stored* spelling before the store, ...) is the model's [set_item] — for
+      all arguments and states — and therefore preserves the invariant. *)
+  Theorem c07_setitem_as_written : ∀ sh e key v st, setitem_shape_ok sh = true →
+    set_item_sh fold sh e key v st = set_item fold e key v st ∧ (Inv fold st → Inv fold (set_item_sh fold sh e key v st).1).
+  Proof.
+    intros sh e key v st Hok. rewrite (set_item_sh_ok fold sh e key v st Hok). split; [done|].
+    by apply set_item_inv.
+  Qed.
+
+  (** VMF.search as written: any program for the two branches that passes the shape obligations — over the real
+      defaultdict semantics, where reading a missing key inserts an empty set and `name in index` sees such keys —
+      returns exactly [search_spec], and the state it leaves cannot be told from the one before by any reader. *)
+  Theorem c07_search_as_written : (∀ s, fold (fold s) = fold s) → ∀ sh name st, search_shape_ok sh = true → Inv fold st →
+    (∀ e, e ∈ (search_sh fold sh name st).1 ↔ search_spec fold name st e) ∧
+    ix_equiv st (search_sh fold sh name st).2 ∧ Inv fold (search_sh fold sh name st).2.
+  Proof. intros Hidem sh name st. by apply search_sh_sound_complete. Qed.
+
+  (** *** Entity.make_unique terminates: with [n] keys in by_target, one of the [n+1] candidates base1 .. base(n+1)
+      is unused (they stay pairwise distinct after case folding), so the `while True` loop ends within the fuel
+      the model gives it; the name chosen is the first unused candidate; make_unique never raises.
+      Folding is abstract: it distributes over an appended decimal number and leaves the digits alone. *)
+  Section unique.
+    Hypothesis fold_app_dec : ∀ b i, fold (b ++ dec i) = fold b ++ dec i.
+    Theorem c07_make_unique_loop_total : ∀ (bt : gmap (option str) (gset nat)) base i,
+      is_Some (free_name fold (S (size bt)) i base bt).
+    Proof. exact (free_name_total fold fold_app_dec). Qed.
+    Theorem c07_make_unique_first_unused : ∀ fuel i base bt name, free_name fold fuel i base bt = Some name →
+      ∃ j, (j < fuel)%nat ∧ name = base ++ dec (i + N.of_nat j) ∧ ix_get bt (cand fold base i j) = ∅ ∧
+           ∀ j', (j' < j)%nat → ix_get bt (cand fold base i j') ≠ ∅.
+    Proof. exact (free_name_some fold). Qed.
+    Theorem c07_make_unique_terminates : ∀ e p st, (make_unique fold e p st).2 = 0.
+    Proof. exact (make_unique_terminates fold fold_app_dec fold_tn). Qed.
+  End unique.
+
+  (** *** Iterating an index while mutating it (CopySet.__iter__, shape read off the source): a generator that
+      never iterates the live set cannot raise, for every loop body; when the body applies arbitrary operations
+      to the yielded entity (re-class, rename, remove, add, ...) every map still satisfies the invariant. *)
+  Theorem c07_copyset_iteration_keeps_inv : ∀ (get : list mstate → gset nat) (f : nat → list wop)
+      (order : gset nat → list nat) p w,
+    iprog_never_live p = true → Forall (Inv fold) w →
+    let out := irun get (λ x w, wrun fold (f x) w) order p ∅ [] w in
+    io_raised out = false ∧ Forall (Inv fold) (io_state out).
+  Proof. apply copyset_iteration_keeps_inv; assumption. Qed.
 End C07.
+
+(** CopySet iteration in general (any state type, any loop body, any iteration order of a frozen set): no
+    RuntimeError; today's generator stops after [size snapshot + size late] yields, yields no element twice, and
+    yields exactly the snapshot and the elements added during the first pass. *)
+Theorem c07_copyset_never_live_no_raise : ∀ {S} (get : S → gset nat) body order p, iprog_never_live p = true →
+  ∀ cur ys s, io_raised (irun get body order p cur ys s) = false.
+Proof. intros S. exact (@irun_never_live_no_raise S). Qed.
+Theorem c07_copyset_iteration_total : ∀ {S} (get : S → gset nat) body order, (∀ X, order X ≡ₚ elements X) → ∀ s,
+  let out := irun get body order copyset_iter_today ∅ [] s in
+  let s1 := yield_frozen body (order (get s)) s in
+  io_raised out = false ∧
+  length (io_yield out) = size (get s) + size (get s1 ∖ get s) ∧
+  NoDup (io_yield out) ∧
+  ∀ x, x ∈ io_yield out ↔ x ∈ get s ∨ (x ∈ get s1 ∧ x ∉ get s).
+Proof. intros S. exact (@copyset_iteration_total S). Qed.
+Theorem c07_plain_set_iteration_refuted :
+  iprog_never_live plain_set_iter = false ∧
+  io_raised (irun (S := gset nat) id (λ x s, s ∖ {[x]}) elements plain_set_iter ∅ [] {[1; 2]}) = true.
+Proof. exact plain_set_iteration_refuted. Qed.
+Example c07_ascii_fold_app_dec : ∀ b i, ascii_fold (b ++ dec i) = ascii_fold b ++ dec i.
+Proof. exact ascii_fold_app_dec. Qed.
+
+(** Today's shapes pass; the shapes of the seeded faults do not, and are wrong on reachable states:
+    c07_1 (previous value fetched with the caller's spelling; also: fetched after the store) ... *)
+Example c07_shapes_today_ok : setitem_shape_ok setitem_shape_today = true ∧ search_shape_ok search_shape_today = true.
+Proof. split; reflexivity. Qed.
+Theorem c07_setitem_caller_spelling_refuted :
+  setitem_shape_ok setitem_shape_caller = false ∧
+  let st0 := run ascii_fold [CreateEnt [97]%N [([84;97;114;103;101;116;78;97;109;101]%N, [120]%N)]] init in
+  Inv ascii_fold st0 ∧ ¬ Inv ascii_fold (set_item_sh ascii_fold setitem_shape_caller 1 tn [121]%N st0).1.
+Proof. exact set_item_caller_spelling_refuted. Qed.
+Theorem c07_setitem_read_after_store_refuted :
+  setitem_shape_ok setitem_shape_after = false ∧
+  let st0 := run ascii_fold [CreateEnt [97]%N [([84;97;114;103;101;116;78;97;109;101]%N, [120]%N)]] init in
+  ¬ Inv ascii_fold (set_item_sh ascii_fold setitem_shape_after 1 tn [121]%N st0).1.
+Proof. exact set_item_read_after_store_refuted. Qed.
+(** ... and c07_2 (`if name in by_target ... elif name in by_class`): after a mere read of by_target['a'], or when
+    another entity is named 'A', search('a') misses the entity of class 'a'. *)
+Theorem c07_search_elif_refuted :
+  search_shape_ok search_shape_elif = false ∧
+  let st_probe := run ascii_fold [CreateEnt [97]%N []; ProbeTarget (Some [97]%N)] init in
+  let st_named := run ascii_fold [CreateEnt [97]%N []; CreateEnt [98]%N [(tn, [65]%N)]] init in
+  Inv ascii_fold st_probe ∧ search_spec ascii_fold [97]%N st_probe 1 ∧ 1 ∉ (search_sh ascii_fold search_shape_elif [97]%N st_probe).1 ∧
+  Inv ascii_fold st_named ∧ search_spec ascii_fold [97]%N st_named 1 ∧ 1 ∉ (search_sh ascii_fold search_shape_elif [97]%N st_named).1.
+Proof. exact search_elif_refuted. Qed.
 
 (** The hypotheses are satisfiable: ASCII lower-casing. *)
 Example c07_ascii_fold_ok :
